@@ -17,6 +17,44 @@ def step_cap(env: str, cfg: Dict[str, Any], tier: str) -> int:
     return cap
 
 
+# "deep" episodes: environments whose natural episodes are much longer than the ordinary step cap get a few long runs, so
+# that states only reached late (long snakes, full boards, late ghost phases, many delivered shelves, high tiles) are monitored
+DEEP_CAP = {"Game2048": 1500, "SlidingTilePuzzle": 501, "JobShop": 1000, "Tetris": 401, "PacMan": 1001, "RobotWarehouse": 501,
+            "Snake": 1500, "Minesweeper": 100, "Sokoban": 121, "RubiksCube": 201}
+
+
+# the policies that actually produce long episodes (measured): generic names are in jmon.rollout.POLICIES, the others are the
+# model's own workloads (fall back to "survive" when a model does not offer them)
+DEEP_POLICY = {
+    "Game2048": ["plan", "first", "survive"], "Tetris": ["complete", "complete", "survive"], "PacMan": ["plan", "plan", "complete"],
+    "Snake": ["plan", "survive", "plan"], "JobShop": ["greedy", "greedy", "masked"], "RobotWarehouse": ["survive", "complete", "masked"],
+    "SlidingTilePuzzle": ["masked", "mixed", "random"], "Minesweeper": ["complete", "complete", "complete"],
+    "Sokoban": ["plan", "random", "masked"], "RubiksCube": ["random", "masked", "random"],
+}
+
+
+def deep_episodes(env: str, cfg: Dict[str, Any], tier: str, extra: Dict[str, Any] = None) -> List[Any]:
+    """[(policy, max_steps)] of the long episodes a shard adds to its ordinary workload (`extra`: the model's policies)."""
+    if env not in DEEP_CAP:
+        return []
+    L = cfg.get("time_limit")
+    cap = DEEP_CAP[env] if L is None else min(DEEP_CAP[env], L + 1)
+    if cap <= step_cap(env, cfg, tier):
+        return []
+    from jmon.rollout import POLICIES
+
+    names = DEEP_POLICY[env]
+    if tier == "quick":
+        if cfg.get("id") != "default":
+            return []
+        names, cap = names[:1], min(cap, 450)
+    out = []
+    for nm in names:
+        pol = (extra or {}).get(nm) or (nm if nm in POLICIES else "survive")
+        out.append((pol, cap))
+    return out
+
+
 def env_cfg_shards(tier: str, env_list: List[str], weight: Dict[str, float] = None, cfg_filter=None) -> List[Dict[str, Any]]:
     out = []
     for e in env_list:
